@@ -117,6 +117,7 @@ def check_C16(tier, seed):
     n = 20000 if tier == "quick" else 300000
     run_pipeline(res, binary, "random", gen_lines=gens.gen_nanos(rng, n), nshards=8 if tier == "quick" else 16)
     run_pipeline(res, binary, "ns-validation", gen_lines=gens.gen_ns_validation(rng, 2000 if tier == "quick" else 40000), nshards=4)
+    run_pipeline(res, binary, "through-zones", gen_lines=gens.gen_nanos_zone(rng, 60 if tier == "quick" else 1500), nshards=4)
     res.notes["rule"] = "vectors: every count within R of 17 anchors (multiples of 1e9, i64/i128 ends, date-time range ends); events: seeded i128 counts (log-uniform, anchors, zero crossings) through the three from_total_nanoseconds constructors"
     os.remove(vec)
     return res.finish()
@@ -223,7 +224,10 @@ def check_find(pid, tier, seed):
     os.remove(vec)
     q = tier == "quick"
     run_pipeline(res, binary, "zones", gen_lines=gens.gen_find_zones(rng, 200 if q else 4000, findn=(pid == "C17")), nshards=8 if q else 16)
-    res.notes["rule"] = "vectors: every zone of the scaled model x local seconds -7..14 (expected list and accessors emitted where instants are pairwise distinct); events: seeded valid zones (1..40 transitions, small/tiny/full-range offsets, gaps smaller than offset differences, leap tables, fixed rule), local times within one second of every transition +- offset"
+    if pid == "C06":
+        # unique / earliest / latest are also offered by the buffer-based list: the same zones searched into a reused buffer
+        run_pipeline(res, binary, "zones-buffer", gen_lines=gens.gen_find_zones(rng, 60 if q else 1000, findn=True), nshards=8 if q else 16)
+    res.notes["rule"] = "vectors: every zone of the scaled model x local seconds -7..14 (expected list and accessors emitted where instants are pairwise distinct); events: seeded valid zones (1..40 transitions, small/tiny/full-range offsets, gaps smaller than offset differences, leap tables, fixed rule), rule-only zones and tables ending at a rule-generated transition (corpus-shaped and seeded DST rules; the four boundary seconds T+a-1, T+a, T+b-1, T+b of every rule transition of three years and of the junction; New Year), searches at the ends of the supported range; local times within one second of every transition +- offset"
     return res.finish()
 
 
@@ -574,7 +578,7 @@ def check_C19(tier, seed):
         bins[feat] = b
     # also the crate alone, the way a user builds it
     for flags in (["--no-default-features"], ["--no-default-features", "--features", "alloc"], []):
-        r = subprocess.run(["cargo", "build", "--offline", "--target-dir", os.path.join(C.OUT, "c19-target")] + flags, cwd=C.REPO, capture_output=True, text=True)
+        r = subprocess.run(["cargo", "build", "--offline", "--target-dir", os.path.join(C.BASE_OUT, "c19-target")] + flags, cwd=C.REPO, capture_output=True, text=True)
         if r.returncode != 0:
             res.violation("C19-configuration-does-not-build", {"op": "build", "a": {"features": " ".join(flags)}, "r": {"compile_error": r.stderr[-1500:]}})
     if any(b is None for b in bins.values()):
@@ -606,6 +610,8 @@ def check_C19(tier, seed):
         for e in gens.gen_c14(rng, n):
             yield e
         for e in gens.gen_find_zones(rng, 60 if q else 1000, findn=True):
+            yield e
+        for e in gens.gen_c12(rng, 25 if q else 500):
             yield e
         for e in gens.gen_c13(rng, n // 6):
             yield e
@@ -876,7 +882,7 @@ def selftest():
         except ToolError as ex:
             witnesses[w] = "violated, as required" if f"Invariant {w} is violated" in str(ex) else "error: " + str(ex)[:200]
     ok = all(r["ok"] for r in results) and all(v.startswith("violated") for v in witnesses.values())
-    json.dump(dict(corrupted_fields=results, reachability_witnesses=witnesses, ok=ok), open(os.path.join(C.OUT, "selftest.json"), "w"), indent=1)
+    json.dump(dict(corrupted_fields=results, reachability_witnesses=witnesses, ok=ok), open(os.path.join(C.BASE_OUT, "selftest.json"), "w"), indent=1)
     for r in results:
         print(("ok   " if r["ok"] else "FAIL ") + f"corrupting one field of a recorded '{r['op']}' result -> rejected at {r['rejected_at']} (event {r['index']})")
     for w, v in witnesses.items():
